@@ -566,6 +566,8 @@ func (in *Interp) ioGlobal(name string) Value {
 
 // hashApp is one application H_kind(key, stream).
 type hashApp struct {
+	iteC       *Term // synthetic application: ite(iteC, iteA, iteB) (input bytes were ite's on one condition)
+	iteA, iteB *hashApp
 	id     int
 	kind   string
 	key    []*Term
@@ -655,6 +657,34 @@ func streamEq(a, b []*Term) *Term {
 }
 
 func (in *Interp) hashApply(kind string, key, stream []*Term) *hashApp {
+	// ite-lifting: H(ite(c, x, y)) = ite(c, H(x), H(y)) when all symbolic choices in the input share one condition
+	var cond *Term
+	lift := true
+	for _, b := range append(append([]*Term{}, key...), stream...) {
+		if b.Op == "ite" {
+			if cond == nil {
+				cond = b.Args[0]
+			} else if b.Args[0] != cond {
+				lift = false
+			}
+		}
+	}
+	if cond != nil && lift {
+		pick := func(bs []*Term, which int) []*Term {
+			out := make([]*Term, len(bs))
+			for i, b := range bs {
+				if b.Op == "ite" {
+					out[i] = b.Args[which]
+				} else {
+					out[i] = b
+				}
+			}
+			return out
+		}
+		a := in.hashApply(kind, pick(key, 1), pick(stream, 1))
+		b := in.hashApply(kind, pick(key, 2), pick(stream, 2))
+		return &hashApp{iteC: cond, iteA: a, iteB: b, kind: kind, fixed: fixedLen(kind)}
+	}
 	// syntactic identity
 	for _, h := range in.hashes {
 		if h.kind == kind && len(h.key) == len(key) && len(h.stream) == len(stream) {
@@ -705,6 +735,9 @@ func (in *Interp) hashApply(kind string, key, stream []*Term) *hashApp {
 	}
 	// axioms against earlier applications of the same kind (at least one side symbolic)
 	for _, o := range in.hashes {
+		if in.param("hashaxioms", 1) == 0 {
+			break // harness only needs the functional behaviour on syntactically equal inputs
+		}
 		if o.kind != kind || (o.conc != nil && h.conc != nil) {
 			continue
 		}
@@ -755,6 +788,9 @@ func (in *Interp) hashApply(kind string, key, stream []*Term) *hashApp {
 }
 
 func (h *hashApp) outByte(in *Interp, i int) *Term {
+	if h.iteC != nil {
+		return Ite(h.iteC, h.iteA.outByte(in, i), h.iteB.outByte(in, i))
+	}
 	if h.fixed > 0 && i >= h.fixed {
 		in.fail("hash output index beyond fixed length")
 	}
